@@ -294,6 +294,16 @@ example : Media.marshal Codec.exact (Media.quantise Codec.exact { base with serv
 
 end
 
+/-- the executable IEEE-754 model `Codec.go` on samples ("test", not an obligation): the envelope is
+tight — 130 µs is written `0.00013` and read back as 129999 ns (one nanosecond short, exactly what
+the real `ParseFloat·1e9` does); a binary tie (2^-6 s) is rounded to even; re-encoding gives the same
+text. -/
+example :
+    ieeeFmtDur 130000 = cs!"0.00013" ∧ ieeeParseDur cs!"0.00013" = some 129999 ∧ ieeeFmtDur 129999 = cs!"0.00013" ∧
+    ieeeFmtDur 15625000 = cs!"0.01562" ∧ ieeeParseDur cs!"0.01562" = some 15620000 ∧
+    ieeeFmtDur (-3500000000) = cs!"-3.50000" ∧ ieeeParseDur cs!"-3.50000" = some (-3500000000) ∧
+    ieeeParseDur cs!"inf" = some (-9223372036854775808) ∧ ieeeParseDur cs!"1e400" = none := by decide
+
 /-- times (Go layout `Codec.go`): a zone offset with seconds is printed truncated to minutes, the
 instant moves; years above 9999 are printed with five digits and rejected -/
 example :
